@@ -37,4 +37,15 @@ mk('m6','d.estimatedSize -= linkSerializedSize(name, oldLink.Cid, oldLink.Size)'
 mk('m7','newLinkSize := linkSerializedSize(name, link.Cid, link.Size)','newLinkSize := linkSerializedSize(name, link.Cid, 0)')
 # m8 = seeded C17-b: the replaced entry is measured with the NEW link's Tsize at decision time
 mk('m8','oldLinkSize = linkSerializedSize(name, oldLink.Cid, oldLink.Size)','oldLinkSize = linkSerializedSize(name, oldLink.Cid, link.Size)')
+# m9 = seeded C17-c: estimate/link count updated before node.AddRawLink, whose error is returned directly (phantom link after a rejected add)
+mk('m9','''	err = d.node.AddRawLink(name, link)
+	if err != nil {
+		return err
+	}
+	d.updateEstimatedSize(name, nil, link)
+	d.totalLinks++
+	return nil''','''	d.updateEstimatedSize(name, nil, link)
+	d.totalLinks++
+
+	return d.node.AddRawLink(name, link)''')
 print('written to', OUT)
